@@ -308,13 +308,19 @@ var rv = func(s string) (gen.RefVersion, bool) {
 }
 
 func checkSat(scen string, in SatIn, nValid bool) *mc.Violation {
-	v, err := version.Parse(in.V)
-	if err != nil {
-		return mc.V(scen, "harness-version-parses", in, "V parses", err.Error())
+	var v version.Version
+	if in.V != zeroV {
+		var err error
+		if v, err = version.Parse(in.V); err != nil {
+			return mc.V(scen, "harness-version-parses", in, "V parses", err.Error())
+		}
 	}
 	want := false
 	if nValid {
 		a, _ := rv(in.V)
+		if in.V == zeroV {
+			a = gen.RefVersion{} // the zero Version: epoch 0, empty upstream, no revision - ordered like any other value
+		}
 		b, _ := rv(in.N)
 		c := gen.RefCompare(a, b)
 		switch in.Op {
@@ -343,7 +349,12 @@ func checkSat(scen string, in SatIn, nValid bool) *mc.Violation {
 var validVersions = append(gen.AuditIntStrings(0, 1<<62, 6), "0", "1", "1.0", "1.00", "1.0-0", "1.0-1", "0:1.0", "1:0", "1:1.0-1", "1.0~rc1", "1.0+b1", "1.0a", "1.0.", "1.0-1~", "1.0-1+b1",
 	"9", "10", "09", "1.9", "1.10", "2", "2.0-1", "1.0~", "1.0~~", "1a", "1+", "1.", "1-0", "1-1", "2:0", "1.0-a", "1.0-1.1", "1.2.3", "1.2.10",
 	"99999999999999999999", "100000000000000000000", "0.0", "0~", "1:1", "1.0-00")
-var invalidNumbers = append([]string{"", "a", "1 2", "1:", ":1", "-", "1_0", "a:1", "${binary:Version}", "${source:Version}~", "1.0${x}", "$1.0", "1.0 beta", "=1"}, auditNumbers()...)
+// zeroV stands for the zero version.Version{} as V (a value every caller can build; Compare orders it below every parsed one)
+const zeroV = "<zero Version>"
+
+// (the second line: numbers the version parser rejects only in its late checks, after it has filled in some parts)
+var invalidNumbers = append([]string{"", "a", "1 2", "1:", ":1", "-", "1_0", "a:1", "${binary:Version}", "${source:Version}~", "1.0${x}", "$1.0", "1.0 beta", "=1",
+	"1.0_1", "1.0-1_2", "~1", "-1", "1:-1", "1:~", "2:1.0_", "٣", "1.0\x00"}, auditNumbers()...)
 
 // auditNumbers: unparsable version texts built around the literals a change introduced into the code
 func auditNumbers() []string {
@@ -404,7 +415,7 @@ func Run(r *mc.Run) {
 
 	// 2: lists
 	pats := []string{"amd64", "i386", "linux-any", "any-amd64", "kfreebsd-any", "any"}
-	concs := []string{"amd64", "i386", "kfreebsd-amd64", "hurd-i386", "musl-linux-amd64"}
+	concs := []string{"amd64", "i386", "kfreebsd-amd64", "hurd-i386", "musl-linux-amd64", "all"} // 'all' is admitted by a list only through an 'all' entry
 	for _, t := range gen.AuditStrings(func(s string) bool { return gen.Nameish(s) && !strings.Contains(s, "-") }, 2) {
 		pats = append(pats, t+"-any", "any-"+t)
 		concs = append(concs, t, t+"-amd64", "linux-"+t)
@@ -564,8 +575,9 @@ func Run(r *mc.Run) {
 
 	// 4: SatisfiedBy
 	ops := []string{"<<", "<=", "=", ">=", ">>", "", "<", ">", "==", "!=", "=>", "=<"}
-	r.Scenario("version-constraint", map[string]interface{}{"operators": ops, "valid_versions": len(validVersions), "unparsable_numbers": invalidNumbers}, len(validVersions), func(i int, st *mc.Stats) bool {
-		v := validVersions[i]
+	asV := append(append([]string{}, validVersions...), zeroV)
+	r.Scenario("version-constraint", map[string]interface{}{"operators": ops, "valid_versions": len(validVersions), "V_also": "the zero version.Version{}", "unparsable_numbers": invalidNumbers}, len(asV), func(i int, st *mc.Stats) bool {
+		v := asV[i]
 		for _, op := range ops {
 			for _, n := range validVersions {
 				st.Evals++
